@@ -448,7 +448,21 @@ impl Scenario for Full {
                     env.cov.probe("sixteen_bit_word_through_add_word");
                     h.mix(rk.hash());
                     if rk != rm {
-                        fail!('ops, i, "mirror-of-three-stages", "Keyboard::add_word({:04X}) returned {}, the hand-wired stages return {}", w, rk.show(), rm.show());
+                        // above bit 10 the frame check itself is unconstrained (C05's precondition), so a
+                        // Keyboard that is stricter than the bare decoder there - answering with a framing
+                        // error of its own - is tolerated; forwarding something the frame decoder rejected,
+                        // or a different event, is not
+                        let framing = |r: &Res| matches!(r, Res::Err(e) if *e != pc_keyboard::Error::UnknownKeyCode);
+                        if w > 0x7FF && framing(&rk) {
+                            env.cov.count("tolerated_stricter_keyboard_on_out_of_precondition_word", 1);
+                            if !framing(&rm) {
+                                // the mirror's scancode stage has consumed a byte the Keyboard never saw:
+                                // the two are legitimately out of step, the run ends here
+                                break 'ops;
+                            }
+                        } else {
+                            fail!('ops, i, "mirror-of-three-stages", "Keyboard::add_word({:04X}) returned {}, the hand-wired stages return {}", w, rk.show(), rm.show());
+                        }
                     }
                     if let Res::Ev(k, s) = rk {
                         queue.push_back((produced.len(), KeyEvent::new(k, s)));
